@@ -90,7 +90,13 @@ def r1(ctx):
         want = "@signal.SIGTERM" if gr else "@signal.SIGQUIT"
         ctx.check("C04.R1", sigs == {want}, key(f, "signal|graceful=%s" % gr), site(f, first), "stop(graceful=%s) sends %s, required %s" % (gr, sorted(map(str, sigs)), want[1:]), want[1:])
     # final SIGKILL on every normal path
-    ln = [n for n in site_nodes(last) if "SIGKILL" in norm(last)]
+    lcall = nodes_with(f, last)
+    ksigs = set()
+    for gr in (True, False):
+        ex = Explorer(f)
+        outs = ex.run(g.entry, {GR: gr}, probes={n.id: ("ksig", lambda e, env, c=last: e.ev(c.args[-1], env)) for n in lcall})
+        ksigs |= set(ev[1] for o in outs for ev in o.events if isinstance(ev, tuple) and ev[0] == "ksig")
+    ln = site_nodes(last) if ksigs == {"@signal.SIGKILL"} else []
     p = g.must_pass(g.entry, ln, follow_exc=False) if ln else [g.entry]
     ctx.check("C04.R1", bool(ln) and p is None, key(f, "final-kill"), site(f, last), "stop() can return without kill_workers(SIGKILL): a worker that ignores the signal would survive the master",
               "SIGKILL on every path", path=p and g.fmt_path(p))
@@ -102,8 +108,13 @@ def r1(ctx):
         for n in walk_own(f.node):
             if isinstance(n, ast.Assign) and mentions_cfg(n.value, "graceful_timeout") and "time" in norm(n.value):
                 bound_names |= set(t.id for t in n.targets if isinstance(t, ast.Name))
-        conj = w.test.values if isinstance(w.test, ast.BoolOp) and isinstance(w.test.op, ast.And) else [w.test]
-        bounded = any(isinstance(c, ast.Compare) and (names(c) & bound_names) and "time" in norm(c) for c in conj)
+        # every round of the wait passes a comparison of the clock with the limit derived from graceful_timeout
+        # (in the loop condition or as a test-and-break inside the body)
+        hd = [n for n in g.nodes_of(w) if n.kind == "join"][0]
+        ttests = [t for t in g.tests() if isinstance(t.ast, ast.Compare) and (names(t.ast) & bound_names) and "time" in norm(t.ast)
+                  and (t.stmt is w or any(a is w for a in f.module.ancestors(t.ast)))]
+        r = g.reachable([(hd, "next")], without_nodes=ttests, follow_exc=False)
+        bounded = bool(ttests) and hd not in r
         ctx.check("C04.R1", bounded, key(f, "bounded-wait"), site(f, w.test), "the wait for workers is not bounded by cfg.graceful_timeout (a hung worker would block shutdown forever)",
                   "while WORKERS and time < limit(graceful_timeout)")
         kn = fn
